@@ -95,7 +95,11 @@ def run(ctx):
            'after a PINGREQ the next ping is scheduled K seconds later (K > 0)', 'ping|reschedule', loc=ka.loc())
     pr = ctx.fn('ProtocolState::handle_pingresp')
     cl = armed.get(('ping_timeout_timepoint', 'handle_pingresp'), [])
-    ctx.ob(len(cl) == 1 and show(cl[0].rv) == 'Option::None{}' and guarded_any(pr, cl[0].bb, [r'^self\.ping_timeout_timepoint is Some$']), 'PINGRESP clears the outstanding deadline', 'pingresp|clear', loc=pr.loc())
+    okret_ = [b for b, e in prims.ret_variants(pr) if show(e).startswith('Result::Ok')]
+    seen_ = pr.reach([0], avoid=[m.bb for m in cl]) if cl else set(range(pr.n))
+    ctx.ob(len(cl) == 1 and show(cl[0].rv) == 'Option::None{}' and bool(okret_) and not any(b in seen_ for b in okret_) and
+           (guarded_any(pr, cl[0].bb, [r'^self\.ping_timeout_timepoint is Some$']) or cl[0].method == 'take'),
+           'PINGRESP clears the outstanding deadline on every accepting path (and touches it only when one is outstanding, or by take())', 'pingresp|clear', loc=pr.loc())
     errb = prims.err_blocks(pr)
     ctx.ob(any(guarded_any(pr, b, [r'^self\.ping_timeout_timepoint is None$']) for b in errb), 'a PINGRESP without an outstanding PINGREQ is a protocol error', 'pingresp|unexpected', loc=pr.loc())
     ex = ctx.fn('ProtocolState::apply_ping_extension_on_operation_success')
